@@ -1008,7 +1008,11 @@ class ExperimentTopology(Topology):
         if not self.graph_model.node_exists(node_id=node.node_id, label=ABCPropertyGraph.CLASS_NetworkNode):
             # already removed by an earlier pruning step
             return
-        self.remove_node(name=node.name)
+        if node.type == NodeType.Facility:
+            # facilities are not in self.nodes, remove_node does not find them
+            self.remove_facility(name=node.name)
+        else:
+            self.remove_node(name=node.name)
 
     def _prune_ns(self, ns: NetworkService):
         """
@@ -1081,6 +1085,13 @@ class ExperimentTopology(Topology):
                             if isl.get_reservation_info() and \
                                     isl.get_reservation_info().reservation_state == reservation_state:
                                 interfaces.add(ii)
+
+        # facility nodes are not in self.nodes (their services and interfaces are visited below)
+        for n in (self.facilities or dict()).values():
+            nsl = n.get_sliver()
+            if nsl.get_reservation_info() and \
+                    nsl.get_reservation_info().reservation_state == reservation_state:
+                nodes.add(n)
 
         # top level network services only, we visited others already
         for ns in self.network_services.values():
